@@ -57,6 +57,7 @@ def cases():
 
 UINTS = [0, 1, 23, 24, 255, 256, 65535, 65536, 2 ** 32 - 1, 2 ** 32, 2 ** 64 - 1]
 FLAG_BITS = [0x4, 0x20, 0x40, 0x4000, 0x10000, 0x20000, 0x40000]
+RESERVED_BITS = [0x8, 0x10, 0x80, 0x100, 0x200, 0x400, 0x800, 0x1000, 0x2000, 0x8000, 0x80000, 0x100000, 0x200000, 1 << 40]
 
 
 def primary_cases():
@@ -91,6 +92,18 @@ def primary_cases():
         if not flags & 0x4:
             yield mk(dict(primary='flags=%#x fragment' % (flags | B.FLAG_IS_FRAGMENT)), flags=flags | B.FLAG_IS_FRAGMENT,
                      frag_offset=10, total_adu=100)
+
+
+    # reserved / unassigned bits of the bundle processing control flags and of the block processing control
+    # flags of a block the node does not know: a forwarder passes them on as they came
+    for rbit in RESERVED_BITS:
+        for base in (0, 0x4, 0x40000 | 0x20):
+            yield mk(dict(primary='flags=%#x (reserved bit)' % (base | rbit)), flags=base | rbit)
+    yield mk(dict(primary='flags=%#x (all reserved bits)' % sum(RESERVED_BITS)), flags=sum(RESERVED_BITS))
+    for bflags in (0x80, 0x81, 0x28, 0x1000001):
+        (lab, b) = mk(dict(primary='unknown block with block flags %#x' % bflags, unk=True))
+        b['blocks'].insert(0, dict(type=199, num=5, flags=bflags, crc_type=1, data=b'\x01\x02'))
+        yield (lab, b)
 
 
 def check_case(label, bundle, mtu, world=None):
